@@ -1,6 +1,198 @@
-/- C12 — model not written yet (stub so that the driver target exists). -/
-namespace Nitime.C12
+/-
+C12 — executable model of the bivariate Granger-causality spectra
+(`nitime/algorithms/autoregressive.py`: transfer_function_xy, spectral_matrix_xy,
+coherence_from_spectral, interdependence_xy, granger_causality_xy; `nitime/analysis/granger.py`:
+GrangerAnalyzer._dict2arr and the default `ij` list).  Core Lean only.
 
-def handle (_args : List String) : String := "bad-op"
+Everything numerical is written once over `Scalar K`, per frequency bin (the numpy code is the
+same expression applied element-wise along the frequency axis); the driver runs `K = CF`,
+`Props/C12.lean` proves the identities for `K = ℂ`.  The functions emit the *ratios*; the
+logarithm is applied by the instance (`Float.log` in the driver, `Real.log` in the theorems).
+
+`freq_response(b, n_freqs)` = `freqz(b, 1, worN = n_freqs//2+1, whole=False)` = the polynomial
+`Σ_j b_j z^j` at `z = exp(-1j·π k/n)` (`polyEval`, shared with C10).
+-/
+import Nitime.Model.ARBase
+
+namespace Nitime.C12
+open Nitime.AR Nitime.AR.Scalar Nitime.Proto
+
+variable {K : Type} [Scalar K]
+
+/-- a 2×2 array -/
+structure M2 (K : Type) where
+  m00 : K
+  m01 : K
+  m10 : K
+  m11 : K
+
+/-- the four coefficient sequences `a[:,0,0]`, `a[:,0,1]`, `a[:,1,0]`, `a[:,1,1]` -/
+structure Coefs (K : Type) where
+  c00 : List K
+  c01 : List K
+  c10 : List K
+  c11 : List K
+
+/-- `A(w)`: `aw, bw, cw, dw` of `transfer_function_xy` (`np.r_[1, a[:,0,0]]`, `np.r_[0, a[:,0,1]]`, …) -/
+def polyA (c : Coefs K) (z : K) : M2 K :=
+  ⟨polyEval (one :: c.c00) z, polyEval (zero :: c.c01) z,
+   polyEval (zero :: c.c10) z, polyEval (one :: c.c11) z⟩
+
+/-- `Hw = [[dw, -bw], [-cw, aw]] / detA` -/
+def transferOfA (A : M2 K) : M2 K :=
+  let detA := A.m00 *. A.m11 -. A.m01 *. A.m10
+  ⟨A.m11 /. detA, neg A.m01 /. detA, neg A.m10 /. detA, A.m00 /. detA⟩
+
+def transferAt (c : Coefs K) (z : K) : M2 K := transferOfA (polyA c z)
+
+/-- `spectral_matrix_xy(Hw, cov)` at one frequency -/
+def spectralAt (H cov : M2 K) : M2 K :=
+  let t00 := cov.m00 *. conj H.m00 +. cov.m01 *. conj H.m01
+  let t01 := cov.m00 *. conj H.m10 +. cov.m01 *. conj H.m11
+  let t10 := cov.m10 *. conj H.m00 +. cov.m11 *. conj H.m01
+  let t11 := cov.m10 *. conj H.m10 +. cov.m11 *. conj H.m11
+  ⟨H.m00 *. t00 +. H.m01 *. t10, H.m00 *. t01 +. H.m01 *. t11,
+   H.m10 *. t00 +. H.m11 *. t10, H.m10 *. t01 +. H.m11 *. t11⟩
+
+/-- `coherence_from_spectral(Sw)` at one frequency -/
+def coherenceAt (S : M2 K) : K := re (S.m01 *. S.m10) /. re S.m00 /. re S.m11
+
+/-- the argument of the logarithm in `interdependence_xy`: `1 - Cw` (the result is `-log` of it) -/
+def interdepArgAt (S : M2 K) : K := one -. coherenceAt S
+
+/-- result of `granger_causality_xy` at one frequency, before the logarithms -/
+structure GC (K : Type) where
+  rX2Y : K     -- f_x_on_y = log rX2Y
+  rY2X : K     -- f_y_on_x = log rY2X
+  rXY : K      -- f_xy = log rXY
+  S : M2 K     -- [[Sxx, Sxy], [Syx, Syy]]
+  xxAuto : K
+  yyAuto : K
+
+def grangerAt (H cov : M2 K) : GC K :=
+  let sigma := cov.m00
+  let upsilon := cov.m01
+  let gamma := cov.m11
+  let gamma2 := gamma -. upsilon *. upsilon /. sigma
+  let Hxy := H.m01
+  let HxxHat := H.m00 +. (upsilon /. sigma) *. Hxy
+  let xxAuto := re (sigma *. HxxHat *. conj HxxHat)
+  let cross := gamma2 *. Hxy *. conj Hxy
+  let Sxx := xxAuto +. cross
+  let rY2X := re Sxx /. xxAuto
+  let sigma2 := sigma -. upsilon *. upsilon /. gamma
+  let Hyx := H.m10
+  let HyyHat := H.m11 +. (upsilon /. gamma) *. Hyx
+  let yyAuto := re (gamma *. HyyHat *. conj HyyHat)
+  let cross2 := sigma2 *. Hyx *. conj Hyx
+  let Syy := yyAuto +. cross2
+  let rX2Y := re Syy /. yyAuto
+  let Hxx := H.m00
+  let HxyHat := H.m01 +. (upsilon /. gamma) *. Hxx
+  let Sxy := sigma2 *. Hxx *. conj Hyx +. gamma *. HxyHat *. conj HyyHat
+  let Syx := sigma2 *. Hyx *. conj Hxx +. gamma *. HyyHat *. conj HxyHat
+  let detS := re (Sxx *. Syy -. Sxy *. Syx)
+  let rXY := xxAuto *. yyAuto /. detS
+  ⟨rX2Y, rY2X, rXY, ⟨Sxx, Sxy, Syx, Syy⟩, xxAuto, yyAuto⟩
+
+/-- relabelling the two channels -/
+def M2.swap (m : M2 K) : M2 K := ⟨m.m11, m.m10, m.m01, m.m00⟩
+def Coefs.swap (c : Coefs K) : Coefs K := ⟨c.c11, c.c10, c.c01, c.c00⟩
+
+/-! ### analyzer bookkeeping -/
+
+/-- `_dict2arr`: start from all-NaN (`none`) and store the per-pair result at `[i, j]` for each
+`(i, j)` of `self.ij`, in list order -/
+def dict2arr {α : Type} (ij : List (Nat × Nat)) (val : Nat × Nat → α) : Nat × Nat → Option α :=
+  ij.foldl (fun arr p => fun q => if q = p then some (val p) else arr q) (fun _ => none)
+
+/-- the default `ij`: `zip(x[tril_indices_from(x,-1)], y[tril_indices_from(y,-1)])` with
+`x, y = meshgrid(arange(n), arange(n))`, i.e. (column, row) over the strict lower triangle in
+row-major order -/
+def defaultIJ (n : Nat) : List (Nat × Nat) :=
+  (List.range n).flatMap fun row => (List.range row).map fun col => (col, row)
+
+/-! ### line protocol (CF instance) -/
+
+def nBins (nFreqs : Nat) : Nat := nFreqs / 2 + 1
+
+def ofReals (l : List Float) : List CF := l.map CF.ofFloat
+
+/-- `a` arrives as P·4 reals, row-major per lag matrix -/
+def coefsOf (p : Nat) (a : List Float) : Coefs CF :=
+  let pick (o : Nat) := (List.range p).map fun k => CF.ofFloat (a.getD (4 * k + o) 0.0)
+  ⟨pick 0, pick 1, pick 2, pick 3⟩
+
+def covOf (c : List Float) : M2 CF :=
+  ⟨CF.ofFloat (c.getD 0 0.0), CF.ofFloat (c.getD 1 0.0), CF.ofFloat (c.getD 2 0.0), CF.ofFloat (c.getD 3 0.0)⟩
+
+def showM2 (ms : List (M2 CF)) : String :=
+  showCList (ms.map (·.m00)) ++ " " ++ showCList (ms.map (·.m01)) ++ " " ++
+  showCList (ms.map (·.m10)) ++ " " ++ showCList (ms.map (·.m11))
+
+def gridZ (nf : Nat) : List CF := (List.range (nBins nf)).map fun k => (phasor false k (nBins nf) : CF)
+
+def logRe (z : CF) : Float := Float.log z.re
+
+structure PairModel where
+  i : Nat
+  j : Nat
+  p : Nat
+  a : List Float
+  cov : List Float
+
+/-- `i:j:P:<flist a>:<flist cov>` -/
+def parsePair? (s : String) : Option PairModel :=
+  match s.splitOn ":" with
+  | [i, j, p, a, c] => do
+    let i ← i.toNat?; let j ← j.toNat?; let p ← p.toNat?
+    let a ← parseFloatList? a; let c ← parseFloatList? c
+    pure ⟨i, j, p, a, c⟩
+  | _ => none
+
+def nanF : Float := 0.0 / 0.0
+
+def handle (args : List String) : String :=
+  match args with
+  | ["tf", nf, p, a] => match nf.toNat?, p.toNat?, parseFloatList? a with
+    | some nf, some p, some a =>
+      let c := coefsOf p a
+      let w := (List.range (nBins nf)).map fun k => CF.gridW false k (nBins nf)
+      "ok " ++ showFloatList w ++ " " ++ showM2 ((gridZ nf).map fun z => transferAt c z)
+    | _, _, _ => "bad-op"
+  | ["sm", nf, p, a, cv] => match nf.toNat?, p.toNat?, parseFloatList? a, parseFloatList? cv with
+    | some nf, some p, some a, some cv =>
+      let c := coefsOf p a
+      let S := (gridZ nf).map fun z => spectralAt (transferAt c z) (covOf cv)
+      "ok " ++ showM2 S ++ " " ++ showFloatList (S.map fun s => (coherenceAt s).re) ++ " " ++
+        showFloatList (S.map fun s => -(logRe (interdepArgAt s)))
+    | _, _, _, _ => "bad-op"
+  | ["gc", nf, p, a, cv] => match nf.toNat?, p.toNat?, parseFloatList? a, parseFloatList? cv with
+    | some nf, some p, some a, some cv =>
+      let c := coefsOf p a
+      let G := (gridZ nf).map fun z => grangerAt (transferAt c z) (covOf cv)
+      "ok " ++ showFloatList (G.map fun g => logRe g.rX2Y) ++ " " ++ showFloatList (G.map fun g => logRe g.rY2X) ++ " " ++
+        showFloatList (G.map fun g => logRe g.rXY) ++ " " ++ showM2 (G.map (·.S))
+    | _, _, _, _ => "bad-op"
+  | "ana" :: np :: nf :: pairs => match np.toNat?, nf.toNat?, pairs.mapM parsePair? with
+    | some np, some nf, some ps =>
+      let ij := ps.map fun q => (q.i, q.j)
+      let res (q : Nat × Nat) : List (GC CF) :=
+        match ps.find? (fun m => m.i = q.1 ∧ m.j = q.2) with
+        | some m => (gridZ nf).map fun z => grangerAt (transferAt (coefsOf m.p m.a) z) (covOf m.cov)
+        | none => []
+      let arr := dict2arr ij res
+      let flat (sel : GC CF → Float) : List Float :=
+        (List.range np).flatMap fun i => (List.range np).flatMap fun j =>
+          match arr (i, j) with
+          | some g => g.map sel
+          | none => List.replicate (nBins nf) nanF
+      "ok " ++ showFloatList (flat fun g => logRe g.rX2Y) ++ " " ++ showFloatList (flat fun g => logRe g.rY2X) ++ " " ++
+        showFloatList (flat fun g => logRe g.rXY)
+    | _, _, _ => "bad-op"
+  | ["defij", n] => match n.toNat? with
+    | some n => "ok " ++ joinList ((defaultIJ n).map fun q => s!"{q.1}:{q.2}")
+    | none => "bad-op"
+  | _ => "bad-op"
 
 end Nitime.C12
